@@ -62,8 +62,7 @@ package names
 //@   ensures result == n.t
 
 // ---- the parser ----
-//@ spec func sanyof(chars string, c int) bool = exists k int :: 0 <= k && k < len(chars) && chars[k] == c
-//@ spec func asciistr(chars string) bool = forall k int :: 0 <= k && k < len(chars) ==> chars[k] < 128
+// (sanyof, asciistr: see types/model/verif_contracts.go)
 //@ spec func slastindexany(s string, chars string) int
 
 // Byte-wise reading of LastIndexAny; stated only for ASCII `chars` (for other sets the
